@@ -22,17 +22,9 @@ theorem pin_problem_Problem_validate_constraint_anchor : pin_problem_Problem_val
 theorem pin_problem_Problem_only_simple_bounds_anchor : pin_problem_Problem_only_simple_bounds = "db45e87281100d80" := rfl
 /-- `Problem._has_equality_constraints` (problem.py) -/
 theorem pin_problem_Problem_has_equality_constraints_anchor : pin_problem_Problem_has_equality_constraints = "56258a35419a78c5" := rfl
-/-- `compile_expression` (core/compiler.py) -/
-theorem pin_compiler_compile_expression_anchor : pin_compiler_compile_expression = "db0179ead8cd3aa4" := rfl
-/-- `_param_value` (core/compiler.py) -/
-theorem pin_compiler_param_value_anchor : pin_compiler_param_value = "79e7de7cdae81265" := rfl
-/-- `compile_to_dict_function` (core/compiler.py) -/
-theorem pin_compiler_compile_to_dict_function_anchor : pin_compiler_compile_to_dict_function = "9c1b94dcff42b825" := rfl
-/-- `CompiledExpression` (core/compiler.py) -/
-theorem pin_compiler_CompiledExpression_anchor : pin_compiler_CompiledExpression = "46e07aadf48eb02a" := rfl
 
 /-- every function the model of C07 transcribes (and no translator covers) is the one it was read from -/
-theorem anchors : pin_solution_Solution = "f2951bc3f76c80c1" ∧ pin_scipy_solver_solve_scipy = "e7c69a3a73fa09d9" ∧ pin_lp_solver_solve_lp = "244fed8ae6b2b560" ∧ pin_problem_Problem_validate_expression = "c1cde4a100b85f9c" ∧ pin_problem_Problem_validate_constraint = "86c81ec384d8e567" ∧ pin_problem_Problem_only_simple_bounds = "db45e87281100d80" ∧ pin_problem_Problem_has_equality_constraints = "56258a35419a78c5" ∧ pin_compiler_compile_expression = "db0179ead8cd3aa4" ∧ pin_compiler_param_value = "79e7de7cdae81265" ∧ pin_compiler_compile_to_dict_function = "9c1b94dcff42b825" ∧ pin_compiler_CompiledExpression = "46e07aadf48eb02a" :=
-  ⟨pin_solution_Solution_anchor, pin_scipy_solver_solve_scipy_anchor, pin_lp_solver_solve_lp_anchor, pin_problem_Problem_validate_expression_anchor, pin_problem_Problem_validate_constraint_anchor, pin_problem_Problem_only_simple_bounds_anchor, pin_problem_Problem_has_equality_constraints_anchor, pin_compiler_compile_expression_anchor, pin_compiler_param_value_anchor, pin_compiler_compile_to_dict_function_anchor, pin_compiler_CompiledExpression_anchor⟩
+theorem anchors : pin_solution_Solution = "f2951bc3f76c80c1" ∧ pin_scipy_solver_solve_scipy = "e7c69a3a73fa09d9" ∧ pin_lp_solver_solve_lp = "244fed8ae6b2b560" ∧ pin_problem_Problem_validate_expression = "c1cde4a100b85f9c" ∧ pin_problem_Problem_validate_constraint = "86c81ec384d8e567" ∧ pin_problem_Problem_only_simple_bounds = "db45e87281100d80" ∧ pin_problem_Problem_has_equality_constraints = "56258a35419a78c5" :=
+  ⟨pin_solution_Solution_anchor, pin_scipy_solver_solve_scipy_anchor, pin_lp_solver_solve_lp_anchor, pin_problem_Problem_validate_expression_anchor, pin_problem_Problem_validate_constraint_anchor, pin_problem_Problem_only_simple_bounds_anchor, pin_problem_Problem_has_equality_constraints_anchor⟩
 
 end Optyx.Props.PinsC07
